@@ -16,6 +16,19 @@ from harness.coqio import lit, flit, parse_evals, Raw
 
 META = {
     'level': 'proof',
+    'technique': 'Coq proof over translated kernels (_rotate_xyz, placement expression) and a lookup model; bit-exact differential correspondence with Backmap.run_molecule',
+    'level_text': ("Theorems in Coq (Props/C06.v) for all angle triples, templates, residue positions and fudge factors: the "
+                   "rotation text translated from linalg_functions._rotate_xyz on every run is multiplication by an orthogonal "
+                   "matrix of determinant 1; the translated placement expression is cg + fudge*v; hence pair distances scale by "
+                   "|fudge|, signed volumes by fudge^3, the centre of a centred template is the residue position, each atom takes "
+                   "the vector of its own name in its own residue and only flagged residues are written. The scipy optimiser is "
+                   "universally quantified. The model is tied to the code by regeneration (tie T, re-proved each run) and by a "
+                   "bit-exact PrimFloat comparison with the real Backmap processor on generated residues (tie D), whose outputs are "
+                   "also judged numerically for the three geometric claims."),
+    'level_note': ("Trusted: Coq kernel + vm_compute; the ast translator; real-number axioms of the standard library as printed by "
+                   "Print Assumptions; theorems are over R (no floating-point rounding analysis; float agreement is checked "
+                   "bit-exactly on samples); hypotheses: distinct atom names equal to the template key set, fudge > 0 for handedness."),
+    'gen_deps': ['Gen_linalg', 'Gen_backmap'],
     'eval_deps': ['theories/gen/Gen_linalg_F.vo', 'theories/gen/Gen_backmap_F.vo', 'theories/model/Backmap.vo'],
     'rule': ("cases = generated residue sets (1-5 residues, templates of 1-6 atoms incl. planar and chiral, "
              "0-3 bonded neighbours built or not, backmap flags, fudge factors) run through the real "
